@@ -249,8 +249,9 @@ def access(ctx):
         tr.append(('del', _cell(e['_K'], s, P)))
 
     it = _mk_interp(fn, [('self.__dict__', dict_iter), ('list(self.__dict__)', dict_iter),
-                         ('self.__dict__.keys()', dict_iter), ('list(self.__dict__.keys())', dict_iter)], P)
-    it.effects += [('del self.__dict__[_K]', del_dict), ('self.__dict__.pop(_K)', del_dict),
+                         ('self.__dict__.keys()', dict_iter), ('list(self.__dict__.keys())', dict_iter),
+                         ('get_metaclass(self).attributes', attr_iter)], P)
+    it.effects += [('del self.__dict__[_K]', del_dict), ('self.__dict__.pop(_K)', del_dict), ('self.__dict__.pop(_K, _D)', del_dict),
                    ('object.__delattr__(self, _K)', del_dict)]
     for stored, others in itertools.product([False, True], repeat=2):
         st = dict(stored=stored, others=others, exact=False, declared=True)
